@@ -6,11 +6,11 @@ set -u
 PATCH=$1; PROP=$2; TIER=${3:-quick}
 cd /repo || exit 2
 if [ -n "$(git status --porcelain)" ]; then echo "repo tree not clean" >&2; exit 2; fi
-git apply "$PATCH" || { echo "patch does not apply" >&2; exit 2; }
+git apply "$PATCH" 2>/dev/null || git apply -3 "$PATCH" || { echo "patch does not apply" >&2; git checkout -- . ; exit 2; }
 cd /verif
 VERIF_NO_EVIDENCE=1 VERIF_MIN_BUDGET=${VERIF_MIN_BUDGET:-20} ./check "$PROP" "$TIER" > /verif/target/run_mutant.$$.log 2>&1
 RC=$?
-git -C /repo checkout -- . 
+git -C /repo reset -q --hard
 grep -E "violation class|quick:|thorough:|harness" /verif/target/run_mutant.$$.log | head -12
 grep -m3 "^VIOLATION" /verif/target/run_mutant.$$.log
 rm -f /verif/target/run_mutant.$$.log
